@@ -17,17 +17,6 @@ def C17TruncationStatement : Prop :=
     ∀ cut, cut < text.length → (∃ c, text[cut - 1]? = some c ∧ (c == '[' || c == '(' || c == ',' || c == '/')) →
       ∃ e, parse (fuelFor (text.take cut)) cfg (text.take cut) = .error e
 
-/-- T0: the parser requires the end of the input; unknown functions and axes are errors -/
-theorem structural_rejections : Generated.parseRequiresEOF = true ∧ Generated.funcDefaultErrors = true ∧
-    Generated.axisDefaultErrors = true := by decide
-
-/-- T0 (F3): required arguments: the minimum arity the builder enforces per function -/
-theorem min_arities : (Generated.funcTable.map (fun e => (e.names.headD "", e.minArgs))) =
-    [("lower-case", 1), ("starts-with", 2), ("ends-with", 2), ("contains", 2), ("matches", 2), ("substring", 2),
-     ("substring-before", 2), ("string-length", 1), ("normalize-space", 0), ("replace", 3), ("translate", 3), ("not", 1),
-     ("name", 0), ("true", 0), ("last", 0), ("position", 0), ("boolean", 0), ("count", 1), ("sum", 1), ("ceiling", 1),
-     ("concat", 2), ("reverse", 1), ("string-join", 2)] := by decide
-
 /-- `skipItem` on a different token is an error (every "expected token" site goes through it) -/
 theorem skipItem_mismatch (st : PState) (t : Tok) (h : st.s.typ ≠ t) : st.skipItem t = .error .invalidToken := by
   simp [PState.skipItem, h]
